@@ -201,7 +201,8 @@ def parse_statement(lexer, toplevel=False):
                 symbolname = symbol
                 if lexer.matchIf("as", "keyword"):
                     symbolname = lexer.matchIdentifier()
-                symbols[symbol] = symbolname
+                # one symbol may be listed several times under different names
+                symbols.setdefault(symbol, []).append(symbolname)
                 if not lexer.peekn(1, "]", "interpunction"):
                     lexer.match(",", "interpunction")
             lexer.match("]", "interpunction")
